@@ -93,13 +93,21 @@ class FileSystemLoader(BaseLoader):
 
     @staticmethod
     def _uptodate(source_path: Path, mtime: float) -> bool:
-        return mtime == source_path.stat().st_mtime
+        try:
+            return mtime == source_path.stat().st_mtime
+        except OSError:
+            # The file has gone, or can't be read any more. Not up to date.
+            return False
 
     @staticmethod
     async def _uptodate_async(source_path: Path, mtime: float) -> bool:
-        return await asyncio.get_running_loop().run_in_executor(
-            None, lambda: mtime == source_path.stat().st_mtime
-        )
+        try:
+            return await asyncio.get_running_loop().run_in_executor(
+                None, lambda: mtime == source_path.stat().st_mtime
+            )
+        except OSError:
+            # The file has gone, or can't be read any more. Not up to date.
+            return False
 
     async def get_source_async(
         self,
